@@ -249,6 +249,10 @@ func equals(t types.Type, x, y value) bool {
 	// Since map, func and slice don't support comparison, this
 	// case is only reachable if one of x or y is literally nil
 	// (handled in eqnil) or via interface{} values.
+	// (a run-time panic of the target program: == on interface values of an uncomparable dynamic type)
+	if cur != nil && cur.interp != nil {
+		panic(targetPanic{iface{cur.interp.runtimeErrorString, fmt.Sprintf("runtime error: comparing uncomparable type %s", t)}})
+	}
 	panic(fmt.Sprintf("comparing uncomparable type %s", t))
 }
 
